@@ -307,8 +307,11 @@ class CFG:
             cur = nxt
         return out
 
-    def reachable(self, a: int, avoid: Iterable[int] = (), normal_only: bool = False) -> Set[int]:
+    def reachable(self, a: int, avoid: Iterable[int] = (), normal_only: bool = False, effect_of: Iterable[int] = ()) -> Set[int]:
+        """`effect_of`: nodes whose *normal completion* is to be avoided: they may be entered, but are left only along an
+        exceptional edge (the statement raised before it took effect, a handler continues)"""
         avoid = set(avoid)
+        effect_of = set(effect_of)
         seen = set()
         todo = [a]
         while todo:
@@ -317,6 +320,8 @@ class CFG:
                 if y in avoid or y in seen:
                     continue
                 if normal_only and self.g[x][y]["kind"] == "x":
+                    continue
+                if x in effect_of and x != a and self.g[x][y]["kind"] != "x":
                     continue
                 seen.add(y)
                 todo.append(y)
@@ -327,8 +332,12 @@ class CFG:
         return b in self.reachable(a, avoid, normal_only)
 
     def must_pass(self, a: int, b: int, via: Iterable[int], normal_only: bool = False) -> bool:
-        """every path a ->+ b passes through a node of `via` (vacuously true if b unreachable)"""
-        return not self.path_avoiding(a, b, via, normal_only)
+        """every path a ->+ b passes through a node of `via` and completes it (vacuously true if b unreachable): a path on which the
+        `via` statement raises into a handler that carries on to b does not count as having passed"""
+        via = list(via)
+        if b in via:
+            return True
+        return b not in self.reachable(a, (), normal_only, effect_of=via)
 
     def reaches_exit_normally(self, a: int) -> bool:
         return self.EXIT in self.reachable(a)
@@ -596,8 +605,9 @@ class FlagCFG:
             self._states = seen
         return self._states
 
-    def reachable(self, a: int, avoid: Iterable[int] = (), normal_only: bool = False) -> Set[int]:
+    def reachable(self, a: int, avoid: Iterable[int] = (), normal_only: bool = False, effect_of: Iterable[int] = ()) -> Set[int]:
         avoid = set(avoid)
+        effect_of = set(effect_of)
         seen_states = set()
         out = set()
         todo = [st for st in self.states() if st[0] == a]
@@ -608,6 +618,8 @@ class FlagCFG:
                     continue
                 if normal_only and k == "x":
                     continue
+                if st[0] in effect_of and st[0] != a and k != "x":
+                    continue
                 seen_states.add(nx_)
                 out.add(nx_[0])
                 todo.append(nx_)
@@ -617,7 +629,10 @@ class FlagCFG:
         return b in self.reachable(a, avoid, normal_only)
 
     def must_pass(self, a: int, b: int, via: Iterable[int], normal_only: bool = False) -> bool:
-        return not self.path_avoiding(a, b, via, normal_only)
+        via = list(via)
+        if b in via:
+            return True
+        return b not in self.reachable(a, (), normal_only, effect_of=via)
 
     def feasible(self, nid: int) -> bool:
         return any(st[0] == nid for st in self.states())
